@@ -34,6 +34,13 @@
 //   - programs that read from a file are, on the two keep-alive request versions, followed by a
 //     second pipelined request on the same connection whose handler answers a fixed response: what
 //     the first response puts on the wire beyond its framing is seen in front of the second one.
+//   - overrun attempts: wherever a positive Content-Length is in force (declared before anything was
+//     committed, no chunked framing / trailers asked for) the handler may try to write MORE than it
+//     leaves room for: Write of rest+1 and rest+64 KiB bytes, WriteString and ReadFrom(bytes.Reader)
+//     of rest+1 (thorough: both sizes). The call must be refused - return 0 and
+//     http.ErrContentLength, which is what net/http's ResponseWriter and the unchanged tree do - and
+//     put nothing on the wire; the program goes on (fill, more attempts) and the final wire must
+//     still be exactly the declared body; such programs get the pipelined follow-up request too.
 //   - the allocator is a dimension: the BFS itself runs under the tracking allocator with pooled
 //     capacities (buffers grow in place, like the stock pool); every program that is clean there is
 //     run again under mempool.NewAligned() (a growing Append returns a NEW handle and frees the old
@@ -72,7 +79,7 @@ func main() {
 	vkit.Main(&vkit.Spec{
 		Property: "C09", Level: "model_checking",
 		Rule: "every handler program over the operation alphabet {Header().Set(Content-Length | Content-Type | Trailer | Trailer+value | trailer value | Transfer-Encoding: chunked), " +
-			"WriteHeader(200|204|404), Write, WriteString, Flush, ReadFrom(bytes.Reader | *os.File | io.LimitedReader{*os.File, N} after Seek(off) with N in {0,1,100,left,left+1,file+1000} x off in {0,middle,EOF} x conn {Sendfile, no Sendfile})} up to length 4 (quick) / 5 (thorough), " +
+			"WriteHeader(200|204|404), Write, WriteString, Flush, overrun attempts Write/WriteString/ReadFrom of rest+1 | rest+64KiB bytes under a Content-Length in force, ReadFrom(bytes.Reader | *os.File | io.LimitedReader{*os.File, N} after Seek(off) with N in {0,1,100,left,left+1,file+1000} x off in {0,middle,EOF} x conn {Sendfile, no Sendfile})} up to length 4 (quick) / 5 (thorough), " +
 			"programs with a file operation being followed by a pipelined second request on the keep-alive versions, " +
 			"each program that is clean under the explorer's allocator (track, pooled capacities) run again under mempool.NewAligned(), track+MoveOnGrow and mempool.NewSTD() (quick: the programs that are new states, NewSTD up to length 3; thorough: every program, NewSTD the new states), " +
 			"for the request versions HTTP/1.0, HTTP/1.0+keep-alive, HTTP/1.1, HTTP/1.1+close, is executed through Parser.Parse -> ServerProcessor.OnComplete -> handler -> flushResponse; " +
@@ -92,6 +99,7 @@ func main() {
 			"request method is always GET (HEAD responses are not in the quantifier)",
 			"a ReadFrom that contributes no bytes (limit 0, file at its end) is like an empty Write: the status and the headers may or may not be committed by it",
 			"the connection's Sendfile (harness double of (*nbio.Conn).Sendfile) sends 'remain' bytes from the file's offset, everything up to the end of the file when remain <= 0 or beyond it - the documented contract of nbio.Conn.Sendfile, which C09 does not verify",
+			"an overrun attempt (more bytes than a Content-Length in force leaves room for) must return 0 and http.ErrContentLength and emit nothing (net/http's contract for Write; the unchanged tree does the same for WriteString and for ReadFrom of a bytes.Reader, which go through Write); like an empty Write it may or may not commit status and headers; afterwards the handler can still complete the declared body (nbio's behaviour; net/http refuses every later Write). ReadFrom of a file through the connection's Sendfile is not offered beyond the declared length (neither nbio nor net/http checks it there)",
 			"allocator dimension: only failures of a program that is clean under the explorer's own allocator are reported there (with the allocator in the signature); a program whose proper prefix already fails under that allocator is not reported again",
 		},
 		Seq: run, ReplaySeq: replay, MinNonTrivial: 1000,
